@@ -466,9 +466,9 @@ func crashSig(msg string) string {
 }
 
 func groupBy(c *core.Ctx) error {
-	cfg, simN := "GroupBy.quick.cfg", 1200
+	cfg, nRandom := "GroupBy.quick.cfg", 500
 	if !c.Quick() {
-		cfg, simN = "GroupBy.thorough.cfg", 6000
+		cfg, nRandom = "GroupBy.thorough.cfg", 12000
 	}
 	var sums []gbSummary
 	res := c.MustHold(core.TLCRun{Module: "GroupBy", Cfg: cfg, Workers: 8, Coverage: true, Timeout: 25 * time.Minute})
@@ -498,16 +498,18 @@ func groupBy(c *core.Ctx) error {
 			c.Logf("GroupBy %s: %d distinct states, %d finished behaviours, invariants hold", extra, r.Distinct, len(s))
 		}
 	}
-	// deeper cases by simulation (every behaviour is one case)
-	sim := c.MustHold(core.TLCRun{Module: "GroupBy", Cfg: "GroupBy.sim.cfg", Simulate: fmt.Sprintf("num=%d", simN), Depth: 100, Seed: c.Seed, Timeout: 10 * time.Minute})
-	if sim == nil {
+	// larger cases chosen at random (seeded); TLC explores every behaviour of each
+	gen := genCases(c.Seed, nRandom)
+	cf := core.NDJSON(gen)
+	rnd := c.MustHold(core.TLCRun{Module: "GroupBy", Cfg: "GroupBy.cases.cfg", Workers: 8, Files: map[string][]byte{"cases.ndjson": cf}, Timeout: 20 * time.Minute})
+	if rnd == nil {
 		return nil
 	}
-	s2, err := parsePrints[gbSummary](sim.Prints)
+	s2, err := parsePrints[gbSummary](rnd.Prints)
 	if err != nil {
 		return err
 	}
-	c.Logf("GroupBy simulation: %d behaviours of up to 6 rows over the full key universe", len(s2))
+	c.Logf("GroupBy on %d random cases of up to 6 rows over the full key universe: %d distinct states, %d finished behaviours, invariants hold", len(gen), rnd.Distinct, len(s2))
 	exhaustiveCases := len(groupCases(sums))
 	sums = append(sums, s2...)
 	cases := groupCases(sums)
@@ -529,7 +531,7 @@ func groupBy(c *core.Ctx) error {
 	}
 	// sparse pass: one aggregate at a time over groups whose arguments are all absent / all null
 	rng := rand.New(rand.NewSource(c.Seed + 10))
-	nSparse := 25
+	nSparse := 12
 	if !c.Quick() {
 		nSparse = 400
 	}
@@ -705,6 +707,73 @@ func judgeGB(c *core.Ctx, j *gbJob, r result) error {
 	}
 	c.Violate(sig, fmt.Sprintf("group-by (%s): %s", label, v.detail), witness)
 	return nil
+}
+
+// genCase is the JSON form of a case record of GroupBy.tla.
+type genCase struct {
+	Src   string  `json:"src"`
+	Mode  string  `json:"mode"`
+	Limit int     `json:"limit"`
+	Keys  [][]any `json:"keys"`
+	Bat   []int   `json:"bat"`
+	B2    int     `json:"b2"`
+}
+
+// genCases draws n cases: up to 6 rows over a small pool of keys from the
+// full universe (so that keys repeat), pool-ordered if the source is declared
+// sorted, with a random batching.
+func genCases(seed int64, n int) []genCase {
+	rng := rand.New(rand.NewSource(seed*1000003 + 5))
+	srcs := []string{"unsorted", "asc", "desc", "asc", "desc", "sortasc", "sortdesc"}
+	limits := []int{1, 1, 2, 2, 3, 99}
+	var out []genCase
+	seen := map[string]bool{}
+	for len(out) < n {
+		g := genCase{Src: srcs[rng.Intn(len(srcs))], Mode: "direct", Limit: limits[rng.Intn(len(limits))], B2: 1}
+		sorted := g.Src == "asc" || g.Src == "desc"
+		if (sorted || g.Src == "unsorted") && rng.Intn(3) == 0 {
+			g.Mode = "partials"
+			if sorted {
+				g.B2 = 1 + rng.Intn(2)
+			}
+		}
+		nsec := 1 + rng.Intn(2)
+		var pool []key
+		for i, np := 0, 2+rng.Intn(3); i < np; i++ {
+			pool = append(pool, key{P: tokOrder[rng.Intn(len(tokOrder))], S: rng.Intn(nsec)})
+		}
+		rows := 1 + rng.Intn(6)
+		keys := make([]key, rows)
+		for i := range keys {
+			keys[i] = pool[rng.Intn(len(pool))]
+		}
+		if sorted {
+			desc := g.Src == "desc"
+			sort.SliceStable(keys, func(i, j int) bool {
+				if desc {
+					return sRank(keys[i].P) > sRank(keys[j].P)
+				}
+				return sRank(keys[i].P) < sRank(keys[j].P)
+			})
+			for left := rows; left > 0; {
+				k := 1 + rng.Intn(left)
+				g.Bat = append(g.Bat, k)
+				left -= k
+			}
+		} else {
+			g.Bat = []int{rows}
+		}
+		for _, k := range keys {
+			g.Keys = append(g.Keys, []any{k.P, k.S})
+		}
+		b, _ := json.Marshal(g)
+		if seen[string(b)] {
+			continue
+		}
+		seen[string(b)] = true
+		out = append(out, g)
+	}
+	return out
 }
 
 func anyTaint(cs *gbCase, t string) bool {
